@@ -246,7 +246,7 @@ __CPROVER_ensures(g_p == 7 ==> EVAL_IS(n2_, n1_, n1_ + n2_ - n3_, 1.0))
 /* every entry: exactly one evaluation of the wrapped element */
 __CPROVER_ensures(g_evals == 1)
 //@end
-//@harness h_EWPF_call enforce=EWPF_call props=C13 min_obl=90 reach=2 timeout=120
+//@harness h_EWPF_call enforce=EWPF_call props=C13 min_obl=91 reach=2 timeout=120
 void h_EWPF_call(void)
 {
   EWPF *e; long n1, n2, n3;
@@ -255,7 +255,7 @@ void h_EWPF_call(void)
 }
 /* the whole table: every entry is a permutation of {0,1,2,3} with its parity as sign (so that the array accesses
  * of operator() are in range for every entry), and the four entries used by the container are the documented exchanges */
-//@harness h_permutations4_table enforce=none props=C13 min_obl=360 reach=1 timeout=120 loops=0
+//@harness h_permutations4_table enforce=none props=C13 min_obl=363 reach=1 timeout=120 loops=0
 void h_permutations4_table(void)
 {
   int p = nondet_int();
@@ -316,7 +316,7 @@ __CPROVER_requires(__CPROVER_is_fresh(self, sizeof(*self)))
 __CPROVER_assigns()
 __CPROVER_ensures(KEQ(Indices, g_X) ==> __CPROVER_return_value == (EM.gpresent != 0))
 //@end
-//@harness h_IC4C_isInContainer enforce=IC4C_isInContainer props=C13 min_obl=90 reach=1 timeout=120
+//@harness h_IC4C_isInContainer enforce=IC4C_isInContainer props=C13 min_obl=92 reach=1 timeout=120
 void h_IC4C_isInContainer(void)
 {
   struct TwoParticleGFContainer *c; IC4 K;
@@ -343,7 +343,7 @@ __CPROVER_ensures((!KEQ(Indices, g_X) && !__CPROVER_old(NM.gpresent)) ==> !NM.gp
 /* the result is the entry of K */
 __CPROVER_ensures(KEQ(Indices, g_X) ==> __CPROVER_return_value == &EM.g.second)
 //@end
-//@harness h_IC4C_set enforce=IC4C_set props=C13 min_obl=1170 reach=2 timeout=300
+//@harness h_IC4C_set enforce=IC4C_set props=C13 min_obl=1160 reach=2 timeout=300
 void h_IC4C_set(void)
 {
   struct TwoParticleGFContainer *c; IC4 K;
@@ -368,7 +368,7 @@ __CPROVER_ensures((!KEQ(Indices, g_X) && __CPROVER_old(EM.gpresent)) ==> (EM.gpr
 __CPROVER_ensures((!KEQ(Indices, g_X) && !__CPROVER_old(EM.gpresent) && EM.gpresent) ==>
                   (g_created == 1 && spec_new_alias(Indices, g_X) != 0 && spec_after_set(Indices, 0, EM.g, EM, g_created_el)))
 //@end
-//@harness h_IC4C_call enforce=IC4C_call replace=IC4C_set props=C13 min_obl=2020 reach=3 timeout=300
+//@harness h_IC4C_call enforce=IC4C_call replace=IC4C_set props=C13 min_obl=2004 reach=3 timeout=300
 void h_IC4C_call(void)
 {
   struct TwoParticleGFContainer *c; IC4 K;
@@ -393,7 +393,7 @@ __CPROVER_loop_invariant(PRES_WF(EM, NM) && INV(EM) && INV2(EM, NM))
 __CPROVER_loop_invariant((II.ghas && iter.pos > II.gpos) ==> EM.gpresent)
 __CPROVER_decreases(II.n - iter.pos)
 //@end
-//@harness h_IC4C_fill enforce=IC4C_fill replace=IC4C_set props=C13 min_obl=2980 reach=1 timeout=300
+//@harness h_IC4C_fill enforce=IC4C_fill replace=IC4C_set props=C13 min_obl=2952 reach=1 timeout=300
 void h_IC4C_fill(void)
 {
   struct TwoParticleGFContainer *c; ISet s;
